@@ -29,6 +29,9 @@ noncomputable instance : KOps ℝ where
   durFromSecs := fun x => ⌊x * 1000000000 + 1 / 2⌋₊
   pi := Real.pi
   sqrt2_32 := Real.sqrt 2
+  sin32 := Real.sin
+  cos32 := Real.cos
+  isFinite := fun _ => true
 
 namespace K
 
@@ -60,6 +63,9 @@ namespace K
 @[simp] theorem exp_real (x : ℝ) : KOps.exp x = Real.exp x := rfl
 @[simp] theorem exp32_real (x : ℝ) : KOps.exp32 x = Real.exp x := rfl
 @[simp] theorem log10_real (x : ℝ) : KOps.log10_32 x = Real.logb 10 x := rfl
+@[simp] theorem sin32_real (x : ℝ) : KOps.sin32 x = Real.sin x := rfl
+@[simp] theorem cos32_real (x : ℝ) : KOps.cos32 x = Real.cos x := rfl
+@[simp] theorem isFinite_real (x : ℝ) : KOps.isFinite x = true := rfl
 
 @[simp] theorem feq_real (x y : ℝ) : feq x y = decide (x = y) := by
   unfold feq
